@@ -161,6 +161,12 @@ func run(propID, tier, root, verif, patchFile, onlyRule string, verbose, noSeeds
 		seedResults = runSeeds(prog, propID, tier, all)
 	}
 
+	// seeded changes written by independent sub-agents (/verif/seeded/<prop>-*/patch.diff), applied in memory
+	var seededResults []seedResult
+	if !noSeeds && patchFile == "" {
+		seededResults = runSeeded(prog, propID, root, verif, selected, all)
+	}
+
 	// report
 	var rep strings.Builder
 	fmt.Fprintf(&rep, "pgocheck property=%s tier=%s root=%s packages=%d rules=%d obligations=%d\n",
@@ -184,6 +190,9 @@ func run(propID, tier, root, verif, patchFile, onlyRule string, verbose, noSeeds
 		if s.Status != "fired" {
 			fmt.Fprintf(&rep, "SELFTEST seed %s (%s): %s %s\n", s.Name, s.Rule, s.Status, s.Detail)
 		}
+	}
+	for _, s := range seededResults {
+		fmt.Fprintf(&rep, "seeded change %s: %s %s\n", s.Name, s.Status, s.Detail)
 	}
 	if verbose {
 		for _, o := range all {
@@ -252,6 +261,7 @@ func run(propID, tier, root, verif, patchFile, onlyRule string, verbose, noSeeds
 			"seeds_fired":        fired,
 			"seeds_stale":        stale,
 			"seed_results":       seedResults,
+			"seeded_changes":     seededResults,
 			"load_seconds":       loadSecs,
 			"exhaustive":         true,
 		},
@@ -327,6 +337,55 @@ func runSeeds(prog *load.Program, propID, tier string, base []core.Obligation) [
 				res.Detail = o.Key()
 				break
 			}
+		}
+		out = append(out, res)
+	}
+	return out
+}
+
+// runSeeded applies every kept seeded change of this property in memory and reports
+// whether some rule of the property flags it (informational; never affects the exit code).
+func runSeeded(prog *load.Program, propID, root, verif string, selected []*core.Rule, base []core.Obligation) []seedResult {
+	baseBad := map[string]bool{}
+	for _, o := range base {
+		if o.Verdict == core.Violation {
+			baseBad[o.Key()] = true
+		}
+	}
+	dirs, _ := filepath.Glob(filepath.Join(verif, "seeded", propID+"-*"))
+	sort.Strings(dirs)
+	var out []seedResult
+	for _, d := range dirs {
+		res := seedResult{Name: filepath.Base(d), Rule: "*"}
+		files, err := patch.ApplyFile(filepath.Join(d, "patch.diff"), root)
+		if err != nil {
+			res.Status, res.Detail = "stale", err.Error()
+			out = append(out, res)
+			continue
+		}
+		mut, err := prog.MutateMany(files, res.Name)
+		if err != nil {
+			res.Status, res.Detail = "stale", err.Error()
+			out = append(out, res)
+			continue
+		}
+		res.Status = "missed"
+		var hits []string
+		for _, r := range selected {
+			ctx := core.RunRule(mut, r)
+			for _, o := range ctx.Obs {
+				if (o.Verdict == core.Violation || o.Verdict == core.Lost) && !baseBad[o.Key()] {
+					hits = append(hits, o.Key())
+				}
+			}
+		}
+		rules.Forget(mut)
+		if len(hits) > 0 {
+			res.Status = "detected"
+			if len(hits) > 4 {
+				hits = hits[:4]
+			}
+			res.Detail = strings.Join(hits, " | ")
 		}
 		out = append(out, res)
 	}
